@@ -6,6 +6,7 @@
    All statements quantify over every list of transcripts, every list of fusion / circRNA units of
    every transcript and every failure set (the u_fail bits), with no bound on any length. *)
 From MoPep Require Import Model.Base Model.Wrapper Model.WrapperSpec Proofs.WrapperProofs Gen.WrapperShape.
+From MoPep Require Import Model.ParserLoop Proofs.ParserLoopProofs Gen.ParserShape.
 Open Scope Z_scope.
 
 (* the current source has one of the modelled shapes: everything as after both repairs, each of the two
@@ -77,6 +78,69 @@ Theorem acc_invalid_refuted :
                     forall fasta tl, ~ completes (run shape_acc_unguarded valid true txs) fasta tl.
 Proof. exact acc_invalid_refuted_l. Qed.
 Print Assumptions acc_invalid_refuted.
+
+(* ------------------------------------------------------------------------------------------------------
+   The parsers' --skip-failed (parseSTARFusion, parseFusionCatcher, parseArriba, parseVEP): Model/ParserLoop.v.
+   A row FAILS when the conversion raises an exception that is not a documented skip exception of the tool
+   (row_fails over the documented table doc_fusion / doc_vep).  [modelled_ok sh]: sh is the documented shape
+   of the fusion parsers or of parseVEP (after C07_vep_unknown_tx.patch).  All row lists, no bound. *)
+
+(* the record loops of the four parser CLIs, as read from the current source, are modelled shapes: the three
+   fusion parsers have the documented shape, parseVEP the documented one or the one before the repair *)
+Theorem parser_shapes_modelled :
+  (pshape_eqb source_pshape_star shape_fusion || pshape_eqb source_pshape_star shape_fusion_orig) = true /\
+  (pshape_eqb source_pshape_fc shape_fusion || pshape_eqb source_pshape_fc shape_fusion_orig) = true /\
+  (pshape_eqb source_pshape_arriba shape_fusion || pshape_eqb source_pshape_arriba shape_fusion_orig) = true /\
+  (pshape_eqb source_pshape_vep shape_vep || pshape_eqb source_pshape_vep shape_vep_orig) = true.
+Proof. vm_compute. repeat split; reflexivity. Qed.
+Print Assumptions parser_shapes_modelled.
+
+(* with --skip-failed the run completes; the GVF holds exactly the records of the convertible rows, in order (no
+   file when there is none); a logged summary says: rows read, rows converted, and for every other row, in order,
+   its documented reason or -- for a failing row -- the tool's catch-all counter; the summary is ALWAYS logged
+   (also when nothing is saved); and the same GVF is produced, with or without the flag, from the table without the failing rows *)
+Theorem parser_skip_isolates : forall sh rows, modelled_ok sh = true ->
+  o_exc (prun sh true rows) = None /\
+  gvf_recs (prun sh true rows) = flat_map row_recs rows /\
+  (forall tl, o_tally (prun sh true rows) = Some tl ->
+     tl = (zlen rows, pcount row_ok rows, flat_map (row_reason (ps_doc sh) (ps_fail_reason sh)) rows)) /\
+  o_tally (prun sh true rows) <> None /\
+  (forall skip', o_exc (prun sh skip' (nonfail (ps_doc sh) rows)) = None /\
+                 gvf_recs (prun sh skip' (nonfail (ps_doc sh) rows)) = gvf_recs (prun sh true rows)).
+Proof. exact parser_skip_isolates_l. Qed.
+Print Assumptions parser_skip_isolates.
+
+(* without the flag one failing row, in any position, ends the command with the exception: no GVF, no summary *)
+Theorem parser_noskip_aborts : forall sh rows, modelled_ok sh = true ->
+  existsb (row_fails (ps_doc sh)) rows = true ->
+  prun sh false rows = {| o_exc := Some PEConv; o_gvf := None; o_tally := None |}.
+Proof. intros sh rows _. apply parser_noskip_aborts_l. Qed.
+Print Assumptions parser_noskip_aborts.
+
+Theorem parser_noskip_clean : forall sh rows, existsb (row_fails (ps_doc sh)) rows = false ->
+  prun sh false rows = prun sh true rows.
+Proof. exact parser_noskip_clean_l. Qed.
+Print Assumptions parser_noskip_clean.
+
+(* third finding: parseVEP before C07_vep_unknown_tx.patch -- a skipped record whose transcript id is not in the
+   annotation makes the final ranking of the keys raise KeyError after the summary was logged, despite the flag *)
+Theorem vep_unknown_tx_refuted :
+  exists rows, prun shape_vep_orig true rows = {| o_exc := Some PERank; o_gvf := None; o_tally := Some (2, 1, [6]) |}.
+Proof. exact vep_unknown_tx_refuted_l. Qed.
+Print Assumptions vep_unknown_tx_refuted.
+
+(* fourth finding: the fusion parsers before C07_fusion_tally_before_return.patch -- with --skip-failed and every row
+   failing the run completes but reports nothing (early return before the summary) *)
+Theorem fusion_no_tally_refuted :
+  exists rows, existsb (row_fails doc_fusion) rows = true /\
+               prun shape_fusion_orig true rows = {| o_exc := None; o_gvf := None; o_tally := None |}.
+Proof. exact fusion_no_tally_refuted_l. Qed.
+Print Assumptions fusion_no_tally_refuted.
+
+Example parser_hyp_sat : modelled_ok shape_fusion = true /\ modelled_ok shape_vep = true /\
+  existsb (row_fails doc_fusion) [POk [1]; PExc [10; 14; 20] false; PExc [1; 20] false] = true /\
+  row_fails doc_fusion (PExc [1; 20] false) = false.
+Proof. vm_compute. repeat split; reflexivity. Qed.
 
 (* the hypotheses are satisfiable by non-trivial inputs *)
 Example noskip_hyp_sat : any_failure [d4_tx] = true /\ shape_eqb shape_fixed shape_fixed = true.
